@@ -22,7 +22,7 @@ func (w *Worker) genC04(rc *simapi.RunConfig) {
 	rc.Kind = "cli-sched"
 	pkgs := w.pickPkgs(r, rc.Index, 1+r.Intn(2))
 	for _, p := range pkgs {
-		rc.Visits = append(rc.Visits, simapi.Visit{Pkg: p, Files: w.corpus.Pkgs[p].AllFiles()})
+		rc.Visits = append(rc.Visits, simapi.Visit{Pkg: p, Files: w.index.AllFiles(p)})
 	}
 	wl := w.genWorkload(r, pkgs, true)
 	if len(wl.Checkers) < 4 { // a schedule needs tasks to interleave
@@ -63,9 +63,7 @@ func (w *Worker) runC04CLI(rc *simapi.RunConfig) *simapi.RunResult {
 		return res
 	}
 	v := &rc.Variants[0]
-	if v.Sched != nil && (len(v.CPFrac) > 0 || v.Sched.StepBudget == 0) {
-		resolve(v, w.estimateSteps(wl, rc.Visits))
-	}
+	w.calibrate(rc, v, wl)
 	out := w.execCLI(rc.Args, rc.Visits, v, false)
 	if out.InitErr != "" {
 		res.Violations = append(res.Violations, simapi.Violation{Class: "init-error", Identity: "init-error", Detail: out.InitErr})
